@@ -2,5 +2,5 @@ From Coq Require Import Extraction ExtrOcamlBasic.
 From Texel Require Import Chess.Types Book.Polyglot Book.BuiltIn.
 Extraction Language OCaml.
 Extraction "book_model.ml" mkPos mkMove getHashKey getMove getPGMove deSerialize serialize readEntry
-  getBookEntriesPG getBookMove pgBookMove reachable weightSum sumLegal sumsInInt nextIntTry
+  getBookEntriesPG getBookMove pgBookMove reachable weightSum sumLegal sumsInInt loop1InInt nextIntTry
   pgWeight builtinBookMove addToBook.
